@@ -660,15 +660,15 @@ func renameable(sym *analysis.Symbol, cfg *Config, preserved *preservationSet) b
 	}
 	if sym.Scope != nil && sym.Scope.Kind == analysis.ScopeGlobal {
 		switch sym.Kind {
-		case analysis.SymMacro, analysis.SymVariable:
+		case analysis.SymMacro, analysis.SymVariable, analysis.SymType:
+			// A deftype name is not only a binding: it is stored in every
+			// value of the type (LTaggedVal.Str) and printed with it, so a
+			// renamed type changes values and output.
 			return false
 		case analysis.SymFunction, analysis.SymParameter,
-			analysis.SymSpecialOp, analysis.SymBuiltin, analysis.SymType:
+			analysis.SymSpecialOp, analysis.SymBuiltin:
 			// Renameable at global scope.  SymBuiltin and SymSpecialOp never
 			// get here (rejected above); SymParameter cannot be global.
-			// SymType is renamed along with its references -- deftype names
-			// reach LTaggedVal.Str and therefore serialized output, so this
-			// is only safe for a closed set of input files.
 		}
 	}
 	if preserved != nil && preserved.names[name] {
